@@ -99,6 +99,7 @@ fn worker(a: &[String]) -> i32 {
     let mut since = 0u32;
     while i < to {
         arena::CURRENT_RUN.store(i, std::sync::atomic::Ordering::Relaxed);
+        arena::watchdog(20);
         let rs = rng::run_seed(seed, tag, i);
         let t = plan.generate(rs, i, thorough);
         let want_sample = i < 3;
@@ -127,6 +128,7 @@ fn worker(a: &[String]) -> i32 {
         i += stride;
     }
     arena::CURRENT_RUN.store(u64::MAX, std::sync::atomic::Ordering::Relaxed);
+    arena::watchdog(0);
     // stats file
     let j = stats_json(&stats, &samples);
     let _ = std::fs::write(format!("{}/w{}.json", out, offset), j.compact());
@@ -247,6 +249,7 @@ fn check_cmd(a: &[String]) -> i32 {
         let tier = tier.clone();
         handles.push(std::thread::spawn(move || {
             let mut from = 0u64;
+            let mut restarts = 0;
             loop {
                 let mut child = Command::new(&exe)
                     .args(["worker", &pname(id), &tier, &seed.to_string(), &from.to_string(), &total.to_string(), &nj.to_string(), &w.to_string(), &work])
@@ -274,7 +277,12 @@ fn check_cmd(a: &[String]) -> i32 {
                     break;
                 }
                 match crash_at {
+                    Some(_) if restarts >= 3 => {
+                        // the partition keeps dying: enough evidence, do not spend the budget on it
+                        break;
+                    }
                     Some(r) if r != u64::MAX && r + 1 > from => {
+                        restarts += 1;
                         // NOTE: stats of the crashed worker's partition before the crash are lost;
                         // they are recomputed by the restarted worker only from r+1 on.
                         from = r + 1;
@@ -460,16 +468,16 @@ fn check_cmd(a: &[String]) -> i32 {
     // crashes: C01 owns them (C19 owns aborts in allocation-failure runs)
     let mut crash_notes = Vec::new();
     for (run, sig) in &crashed {
-        let owns = id == 1 || (id == 19 && *sig == 6);
+        let owns = id == 1 || (id == 19 && *sig == 6) || (id == 20 && *sig == 14);
         if owns && *run != u64::MAX {
             let rs = rng::run_seed(seed, tag, *run);
             let t = plan.generate(rs, *run, thorough);
-            let min = minimise::minimise_crash(&t, plan.mask, &exe, &vd, 200);
+            let min = minimise::minimise_crash(&t, plan.mask, &exe, &vd, if *sig == 14 { 40 } else { 200 });
             let path = format!("{}/replays/{}-{}.json", vd, pname(id), rs);
             let rj = J::obj()
                 .set("property", J::Str(pname(id)))
                 .set("oracle", J::str("process-death"))
-                .set("detail", J::Str(format!("worker killed by signal {} while executing this run", sig)))
+                .set("detail", J::Str(if *sig == 14 { "the run did not finish within the watchdog limit (normal: < 1 ms)".to_string() } else { format!("worker killed by signal {} while executing this run", sig) }))
                 .set("expect_crash", J::Bool(true))
                 .set("mask", J::u(plan.mask as u64))
                 .set("trace", min.to_json());
@@ -656,9 +664,11 @@ fn replay(a: &[String]) -> i32 {
     let quiet = a.iter().any(|s| s == "--quiet");
     arena::install_crash_handler();
     arena::CURRENT_RUN.store(0, std::sync::atomic::Ordering::Relaxed);
+    arena::watchdog(std::env::var("VERIF_WATCHDOG").ok().and_then(|s| s.parse().ok()).unwrap_or(20));
     let mut arena = arena::Arena::new();
     let mut stats = Stats::default();
     let (v, log) = execute(&mut arena, &mut stats, &t, mask, !quiet);
+    arena::watchdog(0);
     if !quiet {
         println!("replay {}: scenario={} kind={} calls={}", path, t.scen.name(), t.kind.name(), stats.calls);
         if let Some(l) = log {
